@@ -1,77 +1,64 @@
 (* C20 — injected sessions are used exactly as given, under any legal call order.
-   Model: Model/Session.v (UConn session API + sessionController, with fixes/C20-apply-preset-once.diff applied).
-   State of these files: the model describes the FIXED code; the witness of the defect (F-20) is kept below as an
-   Example about the pre-fix variant of the model ([w_reapply := true]) and as a corpus case of the runner.
+   Model: Model/Session.v (UConn session API + sessionController, code with fix 222e09f "apply the ClientHelloID preset
+   only once"): finite control x provenance flags x data. [world_ok] is the shape of every predefined ClientHelloID;
+   [legal] the documented call orders. All theorems are for histories of ANY length carrying arbitrary ticket /
+   identity bytes: Proofs/SessionP.v computes, for each of the finitely many abstract worlds, the reachable control
+   nodes and checks by computation that they are closed under every legal call (an inductive invariant over a finite
+   space); Proofs/SessionMainP.v lifts it by induction over the history. The witness of the former defect (F-20) is
+   kept as an Example about the pre-fix variant of the model ([w_reapply := true]) and as a corpus case of the runner. *)
+From UV Require Import Base.Common Model.Session Proofs.SessionP Proofs.SessionMainP.
 
-   What is proved, and how far:
-   * HelloGolang: for histories of ANY length and any argument bytes (invariant [invg], Proofs/SessionP.v).
-   * Mimicking ClientHelloIDs: for every history of at most 4 calls over the 12-call [alphabet] (fixed ticket /
-     identity bytes) in every world of predefined-parrot shape [worlds] — an exhaustive sweep of that finite domain
-     inside Coq (Proofs/SessionBoundedP.v), lifted with forallb_forall. The bound is part of each statement. The
-     unbounded invariant proof for these ClientHelloIDs exists only in part (Proofs/SessionInvP.v; see notes/C20.md). *)
-From UV Require Import Base.Common Model.Session Proofs.SessionP Proofs.SessionBoundedP Proofs.SessionMainP.
-
-(* HelloGolang: every documented order runs without an assertion panic — any length, any configuration *)
-Theorem C20_no_assert_golang : forall (w : world) (ops : list op),
-  w_golang w = true -> legal w ops = true ->
-  Forall (fun r => is_panic r = false) (run w (init w) ops).
-Proof. exact no_assert_golang. Qed.
-Print Assumptions C20_no_assert_golang.
-
-(* every documented order of at most 4 calls runs without an assertion panic, in every parrot-shaped world *)
+(* every documented order runs without an assertion panic — HelloGolang included *)
 Theorem C20_no_assert : forall (w : world) (ops : list op),
-  In w worlds -> In ops (lists_upto 4) -> legal w ops = true ->
+  world_ok w = true -> legal w ops = true ->
   Forall (fun r => is_panic r = false) (run w (init w) ops).
-Proof. exact no_assert_b. Qed.
+Proof. exact no_assert. Qed.
 Print Assumptions C20_no_assert.
 
 (* an injected, initialized session ticket is what the marshaled hello and HandshakeState carry once the hello is built *)
-Theorem C20_wire_ticket : forall (w : world) (ops : list op),
-  In w worlds -> In ops (lists_upto 4) ->
-  forall (tk : bytes) (se : N), legal w ops = true -> w_golang w = false ->
+Theorem C20_wire_ticket : forall (w : world) (ops : list op) (tk : bytes) (se : N),
+  world_ok w = true -> w_golang w = false -> legal w ops = true ->
   injected ops = Some (InjTicket tk se) ->
   let s := final w (init w) ops in
-  status s = ByUtls ->
-  hs_sess s = se /\ hs_ticket s = tk /\ exists p, raw s = Some ([tk], p).
-Proof. exact wire_ticket_b. Qed.
+  status (st_c s) = ByUtls ->
+  hs_sess (st_d s) = se /\ hs_ticket (st_d s) = tk /\ exists p, raw (st_d s) = Some ([tk], p).
+Proof. exact wire_ticket. Qed.
 Print Assumptions C20_wire_ticket.
 
 (* the same for an injected PSK: identity in the pre_shared_key extension, session in HandshakeState *)
-Theorem C20_wire_psk : forall (w : world) (ops : list op),
-  In w worlds -> In ops (lists_upto 4) ->
-  forall (lb : bytes) (se : N), legal w ops = true -> w_golang w = false ->
+Theorem C20_wire_psk : forall (w : world) (ops : list op) (lb : bytes) (se : N),
+  world_ok w = true -> w_golang w = false -> legal w ops = true ->
   injected ops = Some (InjPsk lb se) ->
   let s := final w (init w) ops in
-  status s = ByUtls ->
-  hs_sess s = se /\ exists t, raw s = Some (t, Some lb).
-Proof. exact wire_psk_b. Qed.
+  status (st_c s) = ByUtls ->
+  hs_sess (st_d s) = se /\ exists t, raw (st_d s) = Some (t, Some lb).
+Proof. exact wire_psk. Qed.
 Print Assumptions C20_wire_psk.
 
-(* a call the documentation forbids, after a documented history, returns "session is disabled" or panics with the
+(* a call the documentation forbids, after any documented history, returns "session is disabled" or panics with the
    documented "locked" / "undesired controller state" message *)
-Theorem C20_forbidden : forall (w : world) (ops : list op),
-  In w worlds -> In ops (lists_upto 4) ->
-  forall (lf : lst) (o : op), w_golang w = false ->
-  legal_from w (linit w) ops = Some lf -> In o alphabet -> forbidden w lf o = true ->
+Theorem C20_forbidden : forall (w : world) (ops : list op) (lf : lst) (o : op),
+  world_ok w = true -> w_golang w = false ->
+  legal_from w (linit (w_cache0 w)) ops = Some lf -> forbidden w lf o = true ->
   rejected (snd (step w o (final w (init w) ops))) = true.
-Proof. exact forbidden_b. Qed.
+Proof. exact forbidden_rejected. Qed.
 Print Assumptions C20_forbidden.
 
-(* once the preset has been applied the key-share private key is the one of the share in the hello — in particular
-   after BuildHandshakeStateWithoutSession followed by BuildHandshakeState *)
+(* once the preset has been applied (in particular once the hello is built) the key-share private keys exist and are
+   the ones of the share in the hello — also after BuildHandshakeStateWithoutSession followed by BuildHandshakeState *)
 Theorem C20_keys_survive : forall (w : world) (ops : list op),
-  In w worlds -> In ops (lists_upto 4) ->
-  legal w ops = true -> w_golang w = false ->
-  let s := final w (init w) ops in
-  applied s = true -> w_tls13 w = true -> exists g, keys s = Some g /\ share s = Some g.
-Proof. exact keys_b. Qed.
+  world_ok w = true -> w_golang w = false -> legal w ops = true ->
+  let c := st_c (final w (init w) ops) in
+  (status c = ByUtls -> applied c = true) /\
+  (applied c = true -> w_tls13 w = true -> share_some c = true /\ keys_some c = true /\ keys_match c = true).
+Proof. exact keys_survive. Qed.
 Print Assumptions C20_keys_survive.
 
-(* HelloGolang keeps the private key of its key share for any history *)
+(* HelloGolang keeps the private key of its key share *)
 Theorem C20_keys_golang : forall (w : world) (ops : list op),
-  w_golang w = true -> legal w ops = true ->
-  let s := final w (init w) ops in
-  status s = ByGo -> exists g, keys s = Some g /\ share s = Some g.
+  world_ok w = true -> w_golang w = true -> legal w ops = true ->
+  let c := st_c (final w (init w) ops) in
+  status c = ByGo -> share_some c = true /\ keys_some c = true /\ keys_match c = true.
 Proof. exact keys_golang. Qed.
 Print Assumptions C20_keys_golang.
 
@@ -83,38 +70,34 @@ Definition chrome_psk : world := mkWorld false 1 true true true true false false
 Example C20_ex_worlds_ok : world_ok (chrome false) = true /\ world_ok chrome_psk = true.
 Proof. split; reflexivity. Qed.
 
-(* the hypotheses of the bounded theorems are satisfiable: these worlds are in the swept domain (and [lists_upto 4]
-   is by construction every list of at most 4 elements of [alphabet]) *)
-Example C20_ex_in_domain : In (chrome false) worlds /\ In chrome_psk worlds /\ In [Build] (lists_upto 1).
-Proof. repeat split; vm_compute; repeat (first [left; reflexivity | right]). Qed.
-
 (* F-20 on the code before the fix: BuildHandshakeStateWithoutSession; BuildHandshakeState loses the keys, Handshake fails *)
 Example C20_ex_F20_before_fix :
-  keys (final (chrome true) (init (chrome true)) [BuildNoSess; Build]) = None /\
-  share (final (chrome true) (init (chrome true)) [BuildNoSess; Build]) = Some 1 /\
+  let c := st_c (final (chrome true) (init (chrome true)) [BuildNoSess; Build]) in
+  share_some c = true /\ keys_some c = false /\
   run (chrome true) (init (chrome true)) [BuildNoSess; Handshake] = [Ok tt; Err E_HANDSHAKE].
 Proof. vm_compute. repeat split. Qed.
 
 (* the same history on the fixed code *)
 Example C20_ex_F20_fixed :
   legal (chrome false) [BuildNoSess; Build; Handshake] = true /\
-  keys (final (chrome false) (init (chrome false)) [BuildNoSess; Build]) = Some 1 /\
+  keys_eq (st_c (final (chrome false) (init (chrome false)) [BuildNoSess; Build])) = true /\
   run (chrome false) (init (chrome false)) [BuildNoSess; Build; Handshake] = [Ok tt; Ok tt; Ok tt].
 Proof. vm_compute. repeat split. Qed.
 
-(* the documented injection flow: hypotheses of C20_wire_ticket / C20_wire_psk are satisfiable and the hello is built *)
+(* the documented injection flows: the hypotheses of C20_wire_ticket / C20_wire_psk are satisfiable, the hello is built,
+   and what goes on the wire at Handshake is that hello *)
 Example C20_ex_ticket_flow :
   let ops := [SetCache; BuildNoSess; SetTicket (Some (true, [7; 8; 9], 5)); Handshake] in
   legal (chrome false) ops = true /\ injected ops = Some (InjTicket [7; 8; 9] 5) /\
-  status (final (chrome false) (init (chrome false)) ops) = ByUtls /\
-  wire (final (chrome false) (init (chrome false)) ops) = Some ([[7; 8; 9]], None).
+  status (st_c (final (chrome false) (init (chrome false)) ops)) = ByUtls /\
+  wire (st_d (final (chrome false) (init (chrome false)) ops)) = Some ([[7; 8; 9]], None).
 Proof. vm_compute. repeat split. Qed.
 
 Example C20_ex_psk_flow :
   let ops := [SetCache; SetPsk (Some (true, [4; 2], 6)); Build; Build; Handshake] in
   legal chrome_psk ops = true /\ injected ops = Some (InjPsk [4; 2] 6) /\
-  status (final chrome_psk (init chrome_psk) ops) = ByUtls /\
-  wire (final chrome_psk (init chrome_psk) ops) = Some ([[]], Some [4; 2]).
+  status (st_c (final chrome_psk (init chrome_psk) ops)) = ByUtls /\
+  wire (st_d (final chrome_psk (init chrome_psk) ops)) = Some ([[]], Some [4; 2]).
 Proof. vm_compute. repeat split. Qed.
 
 (* forbidden calls: hypotheses of C20_forbidden are satisfiable; the three rejections all occur *)
@@ -131,3 +114,10 @@ Example C20_ex_no_extension :
       (init (mkWorld false 0 false true true true true false true HitNone false false))
       [SetTicket (Some (true, [1], 1)); Handshake] = [Ok tt; Err E_NO_TICKET_EXT].
 Proof. vm_compute. reflexivity. Qed.
+
+(* the size of the finite argument: abstract worlds, those of predefined-parrot shape (all swept), and the reachable
+   control nodes of two of them (no world has more than 66) *)
+Example C20_ex_sizes :
+  N.of_nat (length all_cworlds) = 9216 /\ N.of_nat (length (filter cworld_ok all_cworlds)) = 864 /\
+  length (reach (cworld_of (chrome false))) = 53%nat /\ length (reach (cworld_of chrome_psk)) = 66%nat.
+Proof. vm_compute. repeat split. Qed.
